@@ -44,7 +44,7 @@ func (t *TableDump) ToCSV(w io.Writer) error {
 	for i, col := range t.Columns {
 		header[i] = col.Name
 	}
-	if err := cw.Write(header); err != nil {
+	if err := writeCSVRecord(cw, w, header); err != nil {
 		return err
 	}
 
@@ -59,12 +59,27 @@ func (t *TableDump) ToCSV(w io.Writer) error {
 				record[i] = formatCSVValue(val)
 			}
 		}
-		if err := cw.Write(record); err != nil {
+		if err := writeCSVRecord(cw, w, record); err != nil {
 			return err
 		}
 	}
 
 	return nil
+}
+
+// writeCSVRecord writes one record through cw, except a record that consists of exactly one
+// empty field: csv.Writer writes that as an empty line, which CSV readers (encoding/csv included)
+// skip, so it is written to w as "" instead.
+func writeCSVRecord(cw *csv.Writer, w io.Writer, record []string) error {
+	if len(record) != 1 || record[0] != "" {
+		return cw.Write(record)
+	}
+	cw.Flush()
+	if err := cw.Error(); err != nil {
+		return err
+	}
+	_, err := io.WriteString(w, "\"\"\n")
+	return err
 }
 
 // formatCSVValue formats a Go value as a CSV string
